@@ -50,15 +50,34 @@ func (r *rec) ReportError(error) {
 var kinds = []string{"get", "put", "post", "delete", "patch", "HEAD", "options"}
 var paths = []string{"/v1/a", "/v1/{id}", "/v1/a/{b=c/*}:verb", "/x/**", "/"}
 
-func genUniverse(r *vc.Rand) ([]vrefl.File, vc.Val, []string) {
-	nf := 1 + r.Intn(5)
+// fixed dependency shapes that run first, under every policy: chain, diamond, and a graph in which a later round
+// re-sends a file the client already has (f0 -> {f1, f3}, f1 -> f2, f2 -> f3), fan-out, deep chain, dense DAG
+var shapes = [][][]int{
+	{{1}, {2}, {}},
+	{{1, 2}, {3}, {3}, {}},
+	{{1, 3}, {2}, {3}, {}},
+	{{1, 2, 3}, {4}, {4}, {4}, {}},
+	{{1}, {2}, {3}, {4}, {}},
+	{{1, 4}, {2, 4}, {3, 4}, {4}, {}},
+}
+
+func genUniverse(r *vc.Rand, shape [][]int) ([]vrefl.File, vc.Val, []string) {
+	nf := 1 + r.Intn(6)
+	if shape != nil {
+		nf = len(shape)
+	}
 	files := make([]vrefl.File, nf)
 	var allSvcs []string
 	for i := 0; i < nf; i++ {
 		f := vrefl.File{Name: fmt.Sprintf("f%d.proto", i), Package: fmt.Sprintf("p%d", i), Messages: []string{"M", "N"}}
 		// dependencies only on later files (a DAG: chains and diamonds)
-		for j := i + 1; j < nf; j++ {
+		for j := i + 1; j < nf && shape == nil; j++ {
 			if r.Chance(45) {
+				f.Deps = append(f.Deps, fmt.Sprintf("f%d.proto", j))
+			}
+		}
+		if shape != nil {
+			for _, j := range shape[i] {
 				f.Deps = append(f.Deps, fmt.Sprintf("f%d.proto", j))
 			}
 		}
@@ -113,7 +132,11 @@ func main() {
 	pols := map[int]int{}
 	for i := 0; i < n; i++ {
 		rr := r.Fork()
-		files, uv, svcs := genUniverse(rr)
+		var shape [][]int
+		if i < len(shapes)*8 {
+			shape = shapes[i/8]
+		}
+		files, uv, svcs := genUniverse(rr, shape)
 		// listed names: a random subset of the defined services, plus duplicates, invalid and administrative names
 		var listed []string
 		for _, s := range svcs {
@@ -132,7 +155,10 @@ func main() {
 			k := rr.Intn(j + 1)
 			listed[j], listed[k] = listed[k], listed[j]
 		}
-		pol := rr.Intn(7)
+		pol := []int{0, 1, 2, 3, 4, 5, 6, 7, 7, 1, 2}[rr.Intn(11)]
+		if shape != nil {
+			pol = i % 8
+		}
 		pols[pol]++
 		limit := 100
 		if rr.Chance(15) {
